@@ -248,6 +248,31 @@ fn run_fstream<B: Buffer>(k: usize, s: &[u8]) -> String {
     format!("{}|{}", nonempty(items.join(";")), nonempty(extra.join(";")))
 }
 
+// rt <cap> <hex>: both encoders, then every decoder front-end on the produced frame
+fn run_rt<B: Buffer>(cap: &str, p: &[u8]) -> String {
+    let _ = cap;
+    let one = |f: &[u8]| -> String {
+        let ops = format!("x{},F", hex(f));
+        format!(
+            "{}[{}]{{{}}}({})",
+            f.len(),
+            run_dec::<B>(&ops),
+            run_fdecode(f),
+            run_fstream::<B>(2, f)
+        )
+    };
+    let fb = match catch_unwind(|| encode::<Vec<u8>>(p)) {
+        Ok(Ok(f)) => one(&f),
+        Ok(Err(_)) => "oom".to_string(),
+        Err(_) => "P".to_string(),
+    };
+    let fi = match catch_unwind(|| encode_streaming(p).take(2 * p.len() + 40).collect::<Vec<u8>>()) {
+        Ok(f) => one(&f),
+        Err(_) => "P".to_string(),
+    };
+    format!("b{};i{}", fb, fi)
+}
+
 fn handle(line: &str) -> String {
     let f: Vec<&str> = line.split(' ').collect();
     match f.as_slice() {
@@ -255,6 +280,10 @@ fn handle(line: &str) -> String {
         ["encb", cap, h] => {
             let p = unhex(h);
             with_cap!(*cap, run_encb, (&p))
+        }
+        ["rt", cap, h] => {
+            let p = unhex(h);
+            with_cap!(*cap, run_rt, (cap, &p))
         }
         ["enci", k, h] => run_enci(k.parse().unwrap(), &unhex(h)),
         ["fdecode", h] => run_fdecode(&unhex(h)),
